@@ -85,7 +85,9 @@ EnvelopesOf(t) ==
   \* must leave MDIB and subscription table alone (RejectIsNoop), however late in the handling it is decided
   \cup {"addr_replyto", "addr_faultto", "addr_from", "addr_foreign_header"}
   \cup (IF t \in EmptyBodyTargets THEN {} ELSE {"empty_body", "renamed_body_elem", "dup_body_elem"})
-  \cup (IF t \in NumTargets THEN {"num_huge", "num_negative"} ELSE {})
+  \* (num_zero: the boundary value - a zero duration / zero number is legal XML Schema wise; an endpoint may serve it or
+  \*  refuse it, and a refusal is a no-op like every other)
+  \cup (IF t \in NumTargets THEN {"num_huge", "num_negative", "num_zero"} ELSE {})
   \cup (IF t \in ReqTargets THEN {"del_required"} ELSE {})
 
 ---------------------------------------------------------------------------
@@ -157,7 +159,7 @@ RawVerdict(s, r) ==
     [] s = "Validate" ->
          IF ~post THEN "pass"
          ELSE IF r.envelope \in {"no_body", "del_required"} THEN "reject"
-         ELSE IF r.envelope \in {"renamed_body_elem", "num_huge", "num_negative", "dup_body_elem", "no_header",
+         ELSE IF r.envelope \in {"renamed_body_elem", "num_huge", "num_negative", "num_zero", "dup_body_elem", "no_header",
                                  "no_action", "no_msgid", "addr_replyto", "addr_faultto", "addr_from",
                                  "addr_foreign_header"} THEN "any"
          ELSE "pass"
@@ -169,7 +171,7 @@ RawVerdict(s, r) ==
          ELSE "pass"
     [] s = "Handle" ->
          IF r.target \in UnimplTargets THEN "reject"
-         ELSE IF post /\ r.envelope \in {"no_msgid", "num_huge", "num_negative", "dup_body_elem", "addr_replyto",
+         ELSE IF post /\ r.envelope \in {"no_msgid", "num_huge", "num_negative", "num_zero", "dup_body_elem", "addr_replyto",
                                          "addr_faultto", "addr_from", "addr_foreign_header"} THEN "any"
          ELSE "pass"
 
